@@ -5,7 +5,11 @@ Supported: parameters / locals / module constants of type str, int, bool, option
 `x is None` / `is not None` (with narrowing in `if`); conditional expressions; `x[-1] == c` / `!= c` (translated as
 `endswith`, which differs from Python only on the empty string, where Python raises IndexError - reported as an assumption);
 assignments, conditional re-assignment of one local, `if` / `elif` / `else`, `return`, `raise ValueError / RuntimeError`;
-calls of `urljoin` (a parameter `resolve` of the generated function) and of other translated functions.
+calls of `urljoin` (a parameter `resolve` of the generated function) and of other translated functions;
+`x[i]` with an int index (hoisted into a monadic `PyOps.index`, IndexError as in Python; not under `and` / `or` / conditional
+expressions, whose laziness the hoisting would lose); `for i in range(e):` whose body only tests and returns / raises
+(`PyOps.forRange`, early exit on `return`); `x[::-1]`; `P.search(x)` for a module constant `P = re.compile("[...]")` that is a
+plain character class, of whose match object only `is None` and `.start()` are used; functions returning `None` or a string.
 Every generated function returns `Except PyExc T`."""
 import ast
 
@@ -18,6 +22,7 @@ def lstr(s):
     return '"' + s.replace('\\', '\\\\').replace('"', '\\"').replace('\n', '\\n').replace('\t', '\\t').replace('\r', '\\r') + '".toList'
 
 
+NARROWS = {'optstr': 'str', 'optint': 'matchpos'}     # `x is None` tests narrow an optional to this type
 EXC = {'ValueError': 'PyExc.valueError', 'RuntimeError': 'PyExc.runtimeError', 'IndexError': 'PyExc.indexError'}
 
 
@@ -28,6 +33,9 @@ class TrS:
         self.known = known_funcs         # python function name -> (lean name, [param types], ret type, needs_resolve)
         self.assumptions = assumptions
         self.uses_resolve = False
+        self.hoist = []                  # monadic binds (`let c ← PyOps.index x i`) the current statement needs first
+        self.lazy_depth = 0              # > 0 inside `and` / `or` / conditional expressions
+        self.fresh = 0
 
     # ------------------------------------------------------------ expressions
     def expr(self, n):
@@ -62,18 +70,30 @@ class TrS:
             if ta == 'bool':
                 return "(!%s)" % a, 'bool'
         if isinstance(n, ast.BoolOp):
-            parts = [self.expr(v) for v in n.values]
+            self.lazy_depth += 1
+            try:
+                parts = [self.expr(v) for v in n.values]
+            finally:
+                self.lazy_depth -= 1
             if all(t == 'bool' for _, t in parts):
                 return "(" + (" && " if isinstance(n.op, ast.And) else " || ").join(c for c, _ in parts) + ")", 'bool'
             raise Untranslatable("boolop on non-bools")
         if isinstance(n, ast.IfExp):
             c, tc = self.expr(n.test)
-            (a, ta), (b, tb) = self.expr(n.body), self.expr(n.orelse)
+            self.lazy_depth += 1
+            try:
+                (a, ta), (b, tb) = self.expr(n.body), self.expr(n.orelse)
+            finally:
+                self.lazy_depth -= 1
             if tc == 'bool' and ta == tb:
                 return "(if %s then %s else %s)" % (c, a, b), ta
             raise Untranslatable("ifexp types")
         if isinstance(n, ast.Subscript) and isinstance(n.slice, ast.Slice):
             x, tx = self.expr(n.value)
+            st = n.slice.step
+            if tx == 'str' and n.slice.lower is None and n.slice.upper is None and isinstance(st, ast.UnaryOp) and isinstance(st.op, ast.USub) \
+                    and isinstance(st.operand, ast.Constant) and st.operand.value == 1:
+                return "(%s).reverse" % x, 'str'       # x[::-1]
             if tx != 'str' or n.slice.step is not None:
                 raise Untranslatable("slice of non-string / with step")
             def bound(b):
@@ -84,6 +104,17 @@ class TrS:
                     raise Untranslatable("slice bound is not an int")
                 return "(some %s)" % c
             return "(PyOps.slice %s %s %s)" % (x, bound(n.slice.lower), bound(n.slice.upper)), 'str'
+        if isinstance(n, ast.Subscript) and not isinstance(n.slice, ast.Slice):
+            x, tx = self.expr(n.value)
+            i, ti = self.expr(n.slice)
+            if tx == 'str' and ti == 'int':
+                if self.lazy_depth:
+                    raise Untranslatable("x[i] under a lazily evaluated operator")
+                self.fresh += 1
+                v = "c_%d" % self.fresh
+                self.hoist.append("let %s ← PyOps.index %s %s" % (v, x, i))
+                return v, 'char'
+            raise Untranslatable("subscript of %s by %s" % (tx, ti))
         if isinstance(n, ast.Call):
             f = n.func
             if isinstance(f, ast.Name) and f.id == 'len' and len(n.args) == 1:
@@ -95,6 +126,14 @@ class TrS:
                 if ta == tb == 'str':
                     self.uses_resolve = True
                     return "(resolve %s %s)" % (a, b), 'str'
+            if isinstance(f, ast.Attribute) and f.attr == 'search' and isinstance(f.value, ast.Name) and len(n.args) == 1 and not n.keywords \
+                    and isinstance(self.consts.get(f.value.id), tuple) and self.consts[f.value.id][0] == 'charclass':
+                x, tx = self.expr(n.args[0])
+                if tx == 'str':      # re.compile("[abc]").search(x): a match object, of which only `is None` and `.start()` are used
+                    return "(PyOps.searchClass %s %s)" % (lstr(self.consts[f.value.id][1]), x), 'optint'
+            if isinstance(f, ast.Attribute) and f.attr == 'start' and isinstance(f.value, ast.Name) and not n.args and not n.keywords \
+                    and self.env.get(f.value.id) == 'matchpos':
+                return f.value.id, 'int'
             if isinstance(f, ast.Attribute) and not n.keywords:
                 x, tx = self.expr(f.value)
                 args = [self.expr(a) for a in n.args]
@@ -120,7 +159,7 @@ class TrS:
                         return (e if isinstance(op, ast.Eq) else "(!%s)" % e), 'bool'
             if isinstance(op, (ast.Is, ast.IsNot)) and isinstance(r, ast.Constant) and r.value is None:
                 x, tx = self.expr(l)
-                if tx == 'optstr':
+                if tx in ('optstr', 'optint'):
                     return "(%s).%s" % (x, "isSome" if isinstance(op, ast.IsNot) else "isNone"), 'bool'
                 if tx == 'str':     # a plain string is never None
                     return ("true" if isinstance(op, ast.IsNot) else "false"), 'bool'
@@ -128,7 +167,7 @@ class TrS:
             if isinstance(op, (ast.In, ast.NotIn)) and ta == tb == 'str':
                 e = "(PyOps.isIn %s %s)" % (a, b)
                 return (e if isinstance(op, ast.In) else "(!%s)" % e), 'bool'
-            if isinstance(op, (ast.Eq, ast.NotEq)) and ta == tb and ta in ('str', 'int', 'bool'):
+            if isinstance(op, (ast.Eq, ast.NotEq)) and ta == tb and ta in ('str', 'int', 'bool', 'char'):
                 e = "(%s == %s)" % (a, b)
                 return (e if isinstance(op, ast.Eq) else "(!%s)" % e), 'bool'
             if isinstance(op, (ast.Lt, ast.Gt, ast.LtE, ast.GtE)) and ta == tb == 'int':
@@ -151,6 +190,11 @@ class TrS:
             if isinstance(s, ast.If) and TrS.terminates(s.body) and TrS.terminates(s.orelse):
                 return True
         return False
+
+    @staticmethod
+    def only_tests_and_exits(stmts):
+        return all(isinstance(s, (ast.Return, ast.Raise)) or (isinstance(s, ast.If) and TrS.only_tests_and_exits(s.body) and TrS.only_tests_and_exits(s.orelse))
+                   for s in stmts)
 
     @staticmethod
     def assigned(stmts):
@@ -185,21 +229,58 @@ class TrS:
         """`x is not None` / `x is None` on an optional parameter -> (name, positive?)"""
         if isinstance(test, ast.Compare) and len(test.ops) == 1 and isinstance(test.ops[0], (ast.Is, ast.IsNot)) \
                 and isinstance(test.comparators[0], ast.Constant) and test.comparators[0].value is None and isinstance(test.left, ast.Name) \
-                and self.env.get(test.left.id) == 'optstr':
+                and self.env.get(test.left.id) in NARROWS:
             return test.left.id, isinstance(test.ops[0], ast.IsNot)
         return None
 
-    def block(self, stmts, ret):
+    def flush(self, code):
+        """put the monadic binds collected while translating the expressions of one statement in front of it"""
+        pre, self.hoist = self.hoist, []
+        return "".join(h + "\n  " for h in pre) + code
+
+    def block(self, stmts, ret, in_loop=False):
+        """in_loop: the block is the body of `for i in range(..)`: its value is `Option ret` (`some v` = `return v`, `none` = next round)"""
         if not stmts:
+            if in_loop:
+                return "pure none"
             raise Untranslatable("falls off the end without a value")
         s, tail = stmts[0], stmts[1:]
+        if isinstance(s, ast.For):
+            if in_loop:
+                raise Untranslatable("nested loop")
+            it = s.iter
+            if not (isinstance(s.target, ast.Name) and isinstance(it, ast.Call) and isinstance(it.func, ast.Name) and it.func.id == 'range'
+                    and len(it.args) == 1 and not s.orelse):
+                raise Untranslatable("loop other than `for i in range(e)`")
+            if self.assigned(s.body) - {None} or not self.only_tests_and_exits(s.body):
+                raise Untranslatable("loop body assigns or does more than test / return / raise")
+            n_e, n_t = self.expr(it.args[0])
+            if n_t != 'int':
+                raise Untranslatable("range of a non-int")
+            head = self.flush("")
+            var = s.target.id
+            old = self.env.get(var)
+            self.env[var] = 'int'
+            try:
+                body = self.block(list(s.body), ret, in_loop=True)
+            finally:
+                if old is None:
+                    del self.env[var]
+                else:
+                    self.env[var] = old
+            self.fresh += 1
+            r = "r_%d" % self.fresh
+            return "%slet %s ← PyOps.forRange %s (fun %s => do\n  %s)\n  match %s with\n  | some v => pure v\n  | none => (do\n  %s)" % (
+                head, r, n_e, var, body, r, self.block(tail, ret))
         if isinstance(s, ast.Expr) and isinstance(s.value, ast.Constant):
             return self.block(tail, ret)
         if isinstance(s, ast.Return):
-            e, t = self.expr(s.value)
+            e, t = self.expr(s.value) if s.value is not None else ("none", 'optstr')
+            if ret == 'optstr' and t == 'str':
+                e, t = "(some %s)" % e, 'optstr'
             if t != ret:
                 raise Untranslatable("returns %s, expected %s" % (t, ret))
-            return "pure %s" % e
+            return self.flush("pure (some %s)" % e if in_loop else "pure %s" % e)
         if isinstance(s, ast.Raise):
             exc = s.exc
             name = exc.func.id if isinstance(exc, ast.Call) and isinstance(exc.func, ast.Name) else (exc.id if isinstance(exc, ast.Name) else None)
@@ -212,9 +293,13 @@ class TrS:
             if v in self.env and self.env[v] != t:
                 raise Untranslatable("assignment changes the type of " + v)
             self.env[v] = t
-            return "let %s := %s\n  %s" % (v, e, self.block(tail, ret))
+            if in_loop:
+                raise Untranslatable("assignment inside a loop body")
+            return self.flush("let %s := %s\n  " % (v, e)) + self.block(tail, ret)
         if isinstance(s, ast.If):
             nar = self.narrowing(s.test)
+            if nar is not None and in_loop:
+                raise Untranslatable("None test inside a loop body")
             if nar is not None:
                 name, pos = nar
                 some_b, none_b = (s.body, s.orelse) if pos else (s.orelse, s.body)
@@ -222,7 +307,7 @@ class TrS:
                 def branch(stmts_, narrowed):
                     old = self.env[name]
                     if narrowed:
-                        self.env[name] = 'str'
+                        self.env[name] = NARROWS[old]
                     try:
                         return self.block(list(stmts_) + (tail if cont_needed or not self.terminates(stmts_) else []), ret)
                     finally:
@@ -233,14 +318,22 @@ class TrS:
                 var = next(iter(a))
                 if var not in self.env:
                     raise Untranslatable("conditional first assignment of " + var)
-                return "let %s := %s\n  %s" % (var, self.reassign([s], var), self.block(tail, ret))
-            body = self.block(list(s.body) + ([] if self.terminates(s.body) else tail), ret)
-            orelse = self.block(list(s.orelse) + ([] if self.terminates(s.orelse) else tail), ret)
-            return "if %s then (do\n  %s)\n  else (do\n  %s)" % (self.boolean(s.test), body, orelse)
+                if in_loop:
+                    raise Untranslatable("assignment inside a loop body")
+                n_h = len(self.hoist)
+                re_e = self.reassign([s], var)
+                if len(self.hoist) != n_h:
+                    raise Untranslatable("x[i] inside a conditional re-assignment")
+                return "let %s := %s\n  %s" % (var, re_e, self.block(tail, ret))
+            test = self.boolean(s.test)
+            head = self.flush("")
+            body = self.block(list(s.body) + ([] if self.terminates(s.body) else tail), ret, in_loop)
+            orelse = self.block(list(s.orelse) + ([] if self.terminates(s.orelse) else tail), ret, in_loop)
+            return "%sif %s then (do\n  %s)\n  else (do\n  %s)" % (head, test, body, orelse)
         raise Untranslatable("stmt " + ast.dump(s)[:120])
 
 
-LEAN_TY = {'str': 'List Char', 'int': 'Int', 'bool': 'Bool', 'optstr': 'Option (List Char)'}
+LEAN_TY = {'str': 'List Char', 'int': 'Int', 'bool': 'Bool', 'optstr': 'Option (List Char)', 'optint': 'Option Int', 'char': 'Char', 'matchpos': 'Int'}
 
 
 def translate(out, report, assumptions, lean_name, fn, param_types, ret, consts, skip=('self',)):
@@ -251,6 +344,8 @@ def translate(out, report, assumptions, lean_name, fn, param_types, ret, consts,
                 raise Untranslatable("untyped parameter " + p)
         tr = TrS(dict(params), consts, {}, assumptions)
         body = tr.block(list(fn.body), ret)
+        if tr.hoist:
+            raise Untranslatable("an index expression was left unbound")
         sig = " ".join("(%s : %s)" % (p, LEAN_TY[t]) for p, t in params)
         if tr.uses_resolve:
             sig = "(resolve : List Char → List Char → List Char) " + sig
